@@ -19,13 +19,16 @@ pub struct Spec {
     pub decl: Vec<Vec<u8>>,
     /// 0: every edge is declared once. 1 / 2: after all edges, every edge is declared a second
     /// time through the batch form `add_*_edges([(a, b)])`, with the same (1) or the other (2)
-    /// kind. The dependency relation is the same in all three cases.
+    /// kind. 3: every edge is given twice in a row (single-call form, same kind). 4: after all
+    /// edges, every edge is given with the other kind and then once more with the listed kind.
+    /// The dependency relation is the same in all cases; for 0, 1, 3, 4 so are the kinds.
     #[serde(default)]
     pub redeclare: u8,
     /// How the graph value handed to the checks was obtained. 0: straight from `build()`;
     /// 1: a clone of the built graph (the original dropped); 2: built on another OS thread and
     /// moved here; 3: `DerefMut::deref_mut` called on it once (nothing changed through it);
-    /// 4 / 5 (n = 0 only): `FnGraph::new()` / `FnGraph::default()` instead of a builder.
+    /// 4 / 5 (n = 0 only): `FnGraph::new()` / `FnGraph::default()` instead of a builder;
+    /// 6: one extra node and an edge to it added through `DerefMut` after `build()`.
     #[serde(default)]
     pub prov: u8,
 }
@@ -38,6 +41,15 @@ impl Spec {
             decl: vec![],
             redeclare: 0,
             prov: 0,
+        }
+    }
+
+    /// The kind the built graph must carry for a user edge listed with `contains`.
+    pub fn final_contains(&self, contains: bool) -> bool {
+        if self.redeclare == 2 {
+            !contains
+        } else {
+            contains
         }
     }
 
@@ -72,7 +84,9 @@ impl Spec {
             match self.redeclare {
                 0 => "",
                 1 => " (every edge declared again through the batch form)",
-                _ => " (every edge declared again through the batch form with the other kind)",
+                2 => " (every edge declared again through the batch form with the other kind)",
+                3 => " (every edge given twice in a row)",
+                _ => " (every edge given again with the other kind and then again with the listed kind)",
             },
             match self.prov {
                 0 => "",
@@ -80,6 +94,7 @@ impl Spec {
                 2 => " (built on another thread and moved)",
                 3 => " (deref_mut() called once)",
                 4 => " (FnGraph::new())",
+                6 => " (one node and an edge to it added through DerefMut after build())",
                 _ => " (FnGraph::default())",
             }
         )
@@ -105,6 +120,17 @@ pub fn build(spec: &Spec) -> FnGraph<Node> {
             let _ = std::ops::DerefMut::deref_mut(&mut g);
             g
         }
+        6 => {
+            // one more node (and an edge to it) added to the public `graph` through DerefMut after
+            // build(): not known to the scheduling structure, so the streaming methods go on
+            // handling the `n` built functions; `GraphInfo::from_graph` mirrors `graph`
+            let mut g = build_plain(spec);
+            let extra = g.add_node(Node::new(spec.n, vec![]));
+            if spec.n > 0 {
+                let _ = g.add_edge(fn_graph::FnId::new(0), extra, Edge::Logic);
+            }
+            g
+        }
         4 if spec.n == 0 => FnGraph::new(),
         5 if spec.n == 0 => FnGraph::default(),
         _ => build_plain(spec),
@@ -112,25 +138,40 @@ pub fn build(spec: &Spec) -> FnGraph<Node> {
 }
 
 fn build_plain(spec: &Spec) -> FnGraph<Node> {
+    build_plain_ids(spec).0
+}
+
+/// The builder calls the spec stands for (incl. `redeclare`); also returns what `add_fn` returned.
+pub fn build_plain_ids(spec: &Spec) -> (FnGraph<Node>, Vec<usize>) {
     let mut b = FnGraphBuilder::new();
     let ids: Vec<_> = (0..spec.n)
         .map(|i| b.add_fn(Node::new(i, spec.acc(i).to_vec())))
         .collect();
     for &(x, y, contains) in &spec.edges {
-        let r = if contains {
-            b.add_contains_edge(ids[x], ids[y])
-        } else {
-            b.add_logic_edge(ids[x], ids[y])
-        };
-        r.expect("spec edges are acyclic");
+        // redeclare 3: every edge is given twice in a row through the single-call form
+        for _ in 0..if spec.redeclare == 3 { 2 } else { 1 } {
+            let r = if contains { b.add_contains_edge(ids[x], ids[y]) } else { b.add_logic_edge(ids[x], ids[y]) };
+            r.expect("spec edges are acyclic");
+        }
     }
-    if spec.redeclare > 0 {
+    if spec.redeclare == 1 || spec.redeclare == 2 {
         for &(x, y, contains) in &spec.edges {
             let c = if spec.redeclare == 2 { !contains } else { contains };
             let _ = if c { b.add_contains_edges([(ids[x], ids[y])]).map(|_| ()) } else { b.add_logic_edges([(ids[x], ids[y])]).map(|_| ()) };
         }
     }
-    b.build()
+    if spec.redeclare == 4 {
+        // the other kind first, through the single-call form, then the listed kind again: the
+        // built graph must carry the listed kinds (last one wins)
+        for pass in 0..2 {
+            for &(x, y, contains) in &spec.edges {
+                let c = if pass == 0 { !contains } else { contains };
+                let _ = if c { b.add_contains_edge(ids[x], ids[y]).map(|_| ()) } else { b.add_logic_edge(ids[x], ids[y]).map(|_| ()) };
+            }
+        }
+    }
+    let idx = ids.iter().map(|i| i.index()).collect();
+    (b.build(), idx)
 }
 
 /// Raw edges of the built graph as (from, to, kind).
